@@ -7,7 +7,11 @@
                                          final report, the number of events handled and the first error class;
     {"attach": {"lock": b, "trace": [[tid, act], ...]}}
                                          M14: an observed interleaving of the atomic steps of
-                                         `prepare_attachment` replayed on the acceptor `Attach.run`.
+                                         `prepare_attachment` replayed on the acceptor `Attach.run`;
+    {"store": {"mode": "copy"|"link", "ops": [...], "numbers": [...], "paths": [...]}}
+                                         M14c: a history of file operations and attachment calls on the file-store
+                                         model `AttachStore.step`; answers the outcome of every call and the final
+                                         content of the attachments / source paths asked for.
   Run: `lake env lean --run drivers/C06.lean`
 -/
 import LccModel.Proto
@@ -15,6 +19,7 @@ import LccModel.ProtoReport
 import LccModel.Model.Session
 import LccModel.Model.Writer
 import LccModel.Model.Threads
+import LccModel.Model.AttachStore
 open Lean LccModel LccModel.Proto LccModel.ProtoReport LccModel.Report LccModel.Session
 
 def decOp (j : Json) : Except String (Nat × Op) := do
@@ -122,11 +127,53 @@ def handleAttach (j : Json) : Except String Json := do
     ("events", encList (fun (n : Nat) => Json.num n) s.events),
     ("count", Json.num s.count)])
 
+open LccModel.AttachStore in
+def decStoreOp (j : Json) : Except String AttachStore.Op := do
+  let a ← j.getArr?
+  let nat := fun (i : Nat) => do (← (a[i]? |>.elim (throw "operand missing") pure)).getNat?
+  let content := fun (i : Nat) => do
+    let xs ← (← (a[i]? |>.elim (throw "operand missing") pure)).getArr?
+    xs.toList.mapM (fun x => x.getNat?)
+  match ← (← (a[0]? |>.elim (throw "empty op") pure)).getStr? with
+  | "write" => pure (.write (← nat 1) (← content 2))
+  | "append" => pure (.append (← nat 1) (← content 2))
+  | "replace" => pure (.replace (← nat 1) (← content 2))
+  | "unlink" => pure (.unlink (← nat 1))
+  | "symlink" => pure (.symlink (← nat 1) (← nat 2))
+  | "save" => pure (.save (← nat 1) (← nat 2))
+  | "content" => pure (.saveContent (← nat 1) (← content 2))
+  | k => throw s!"unknown store op {k}"
+
+open LccModel.AttachStore in
+def handleStore (j : Json) : Except String Json := do
+  let a ← field j "store"
+  let mode ← match ← (← field a "mode").getStr? with
+    | "copy" => pure Mode.copy | "link" => pure Mode.link | m => throw s!"unknown mode {m}"
+  let ops ← (← getArr a "ops").toList.mapM decStoreOp
+  let numbers ← (← getArr a "numbers").toList.mapM (fun x => x.getNat?)
+  let paths ← (← getArr a "paths").toList.mapM (fun x => x.getNat?)
+  let rec go (s : FS) (ops : List AttachStore.Op) (out : Array Json) : FS × Array Json × Bool :=
+    match ops with
+    | [] => (s, out, true)
+    | op :: rest =>
+      match AttachStore.step mode s op with
+      | none => (s, out, false)
+      | some (s', o) => go s' rest (out.push (Json.str (match o with | .done => "done" | .missing => "missing")))
+  let (s, out, ok) := go AttachStore.init ops #[]
+  let enc := fun (c : Option Content) => match c with
+    | none => Json.null
+    | some xs => Json.arr (xs.map (fun (n : Nat) => Json.num n)).toArray
+  pure (Json.mkObj [
+    ("ok", Json.bool ok), ("accepted", Json.num out.size), ("outcomes", Json.arr out),
+    ("att", encList (fun (n : Nat) => Json.arr #[Json.num n, enc (attContent s n)]) numbers),
+    ("src", encList (fun (p : Nat) => Json.arr #[Json.num p, enc (srcContent s p)]) paths)])
+
 def handle (j : Json) : Except String Json :=
-  match j.getObjVal? "ops", j.getObjVal? "events", j.getObjVal? "attach" with
-  | .ok _, _, _ => handleOps j
-  | _, .ok _, _ => handleEvents j
-  | _, _, .ok _ => handleAttach j
-  | _, _, _ => throw "unknown request"
+  match j.getObjVal? "ops", j.getObjVal? "events", j.getObjVal? "attach", j.getObjVal? "store" with
+  | .ok _, _, _, _ => handleOps j
+  | _, .ok _, _, _ => handleEvents j
+  | _, _, .ok _, _ => handleAttach j
+  | _, _, _, .ok _ => handleStore j
+  | _, _, _, _ => throw "unknown request"
 
 def main : IO Unit := loop (wrap handle)
